@@ -28,18 +28,20 @@ def codeSym (ts ns : List Str) : Ast.SymId → Option (Sym Nat Nat)
   | .t i => (ts.idxOf? i.name).map .t
   | .n i => (ns.idxOf? i.name).map .n
 
-def encode (f : VFile.File) : Option Enc := do
+def codeRule (ts ns : List Str) (r : VFile.Rule) : Option (Rule Nat Nat) :=
+  match ns.idxOf? r.ctor.typeName, r.fieldset.syms.mapM (codeSym ts ns) with
+  | some lhs, some rhs => some ⟨lhs, rhs⟩
+  | _, _ => none
+
+def encode (f : VFile.File) : Option Enc :=
   let ts := sortNames (f.tenum.variants.map (·.name))
   let ns := sortNames (f.nonterminals.map (·.name))
-  let rules ← f.rules.mapM fun r => do
-    let lhs ← ns.idxOf? r.ctor.typeName
-    let rhs ← r.fieldset.syms.mapM (codeSym ts ns)
-    pure (⟨lhs, rhs⟩ : Rule Nat Nat)
-  let start ← ns.idxOf? f.start
-  let tdecl ← (f.tenum.variants.map (·.name)).mapM ts.idxOf?
-  let ndecl ← (f.nonterminals.map (·.name)).mapM ns.idxOf?
-  pure { ctx := { g := { rules := rules, start := start }, nT := ts.length, nN := ns.length },
-         tsorted := ts, nsorted := ns, tdecl := tdecl, ndecl := ndecl }
+  match f.rules.mapM (codeRule ts ns), ns.idxOf? f.start,
+        (f.tenum.variants.map (·.name)).mapM ts.idxOf?, (f.nonterminals.map (·.name)).mapM ns.idxOf? with
+  | some rules, some start, some tdecl, some ndecl =>
+    some { ctx := { g := { rules := rules, start := start }, nT := ts.length, nN := ns.length },
+           tsorted := ts, nsorted := ns, tdecl := tdecl, ndecl := ndecl }
+  | _, _, _, _ => none
 
 end Encode
 end KikiVerif
